@@ -43,6 +43,10 @@
                   tcp_dispatch_build_data); tcp_dispatch_finish     l.2508-2925
    tcp_poll_at                                                     l.2928
    iface_tcp_ingress iface_poll_at iface_poll_egress(_acc)         iface/interface/tcp.rs, mod.rs l.582, l.468-536
+   tcp_is_listening tcp_is_active  l.1138, l.1175
+   tcp_connect_af                  connect l.1024 with the address families explicit (all four Unaddressable arms)
+   tcp_send_with tcp_recv_with     the closure API Socket::send(f) l.1298 / recv(f) l.1362 (f = copy min(slice, k))
+   tcp_step_x                      tcp_step extended by these three calls (event_x)
    tcp_step                        one event (API call | segment | one dispatch) as a function: what the
                                    theorems of Proofs/TcpStateProofs.v (C17) quantify over
 
@@ -1353,4 +1357,86 @@ Definition tcp_step (cx : ctx) (s : socket) (ev : event) : outcome (socket * ste
   | EvDispatch emit_ok =>
       do x <- tcp_dispatch cx s emit_ok;
       let '(s', res, tags) := x in Ok (s', ODispatch res, tags)
+  end.
+
+(* ---------- remaining public API: predicates, error arms of connect, closure send/recv ---------- *)
+(* (added after the events above; nothing above depends on this part) *)
+
+(* is_listening l.1138, is_active l.1175 *)
+Definition tcp_is_listening (s : socket) : bool :=
+  match s_state s with Listen => true | _ => false end.
+Definition tcp_is_active (s : socket) : bool :=
+  match s_state s with Closed | TimeWait | Listen => false | _ => true end.
+
+(* connect (l.1024) with the address families made explicit.  [tcp_connect] is the IPv4 instance;
+   here the remote may be an IPv6 address ([remote_v6]; [remote_addr] = 0 still means unspecified)
+   and a local address, when given, is IPv4.  Same order of checks as the source:
+   InvalidState (Err 1); remote port 0 / unspecified remote; local port 0; unspecified local
+   address; address-family mismatch (all Err 2 = Unaddressable).  With no local address the
+   interface would pick a source address of the remote's family: the model has IPv4 interfaces
+   only, so [remote_v6] with [le_addr local = None] is outside the model (never generated). *)
+Definition tcp_connect_af (cx : ctx) (s : socket) (remote_v6 : bool) (remote_addr remote_port : Z)
+           (local_endpoint : listen_endpoint) : outcome socket :=
+  if tcp_is_open s then Err 1 else
+  if (remote_port =? 0) || (remote_addr =? 0) then Err 2 else
+  if le_port local_endpoint =? 0 then Err 2 else
+  match le_addr local_endpoint with
+  | Some a =>
+      if a =? 0 then Err 2 else
+      if remote_v6 then Err 2 else tcp_connect cx s remote_addr remote_port local_endpoint
+  | None => tcp_connect cx s remote_addr remote_port local_endpoint
+  end.
+
+(* send_impl (l.1253) after the buffer operation: remote_last_ts and the zero-window-probe timer *)
+Definition tcp_send_impl_post (s : socket) (old_length size : Z) : socket :=
+  if size >? 0 then
+    let s := if old_length =? 0 then upd_remote_last_ts s None else s in
+    if (s_remote_win_len s =? 0) && timer_is_idle (s_timer s)
+    then upd_timer s (timer_set_for_zero_window_probe 0 (rtte_retransmission_timeout (s_rtte s)))
+    else s
+  else s.
+
+(* Socket::send(f) (l.1298) with f = "write min(slice length, |data|) octets of data":
+   returns the socket, the number of octets taken and the length of the slice f saw *)
+Definition tcp_send_with (s : socket) (data : list Z) : outcome (socket * Z * Z) :=
+  if negb (tcp_may_send s) then Err 1 else
+  let old_length := rb_len (s_tx_buffer s) in
+  let slice_len := rb_enqueue_window (s_tx_buffer s) in
+  let '(tx, size, _) := rb_enqueue_pass (s_tx_buffer s) data in
+  let s := upd_tx_buffer s tx in
+  Ok (tcp_send_impl_post s old_length size, size, slice_len).
+
+(* Socket::recv(f) (l.1362) with f = "take min(slice length, k) octets": the octets and the
+   length of the slice f saw *)
+Definition tcp_recv_with (s : socket) (k : Z) : outcome (socket * list Z * Z) :=
+  do _ <- tcp_recv_error_check s;
+  let slice_len := rb_dequeue_window (s_rx_buffer s) in
+  let '(rx, bytes) := rb_dequeue_pass (s_rx_buffer s) k in
+  let s := upd_rx_buffer s rx in
+  Ok (upd_remote_seq_no s (seq_add (s_remote_seq_no s) (l_len bytes)), bytes, slice_len).
+
+(* events including these calls *)
+Inductive event_x :=
+| XEv (ev : event)
+| XConnectAf (remote_v6 : bool) (remote_addr remote_port : Z) (local : listen_endpoint)
+| XSendWith (data : list Z)
+| XRecvWith (k : Z).
+
+Inductive step_out_x :=
+| XOut (o : step_out)
+| XSizeSlice (n slice_len : Z)
+| XBytesSlice (l : list Z) (slice_len : Z).
+
+Definition tcp_step_x (cx : ctx) (s : socket) (ev : event_x) : outcome (socket * step_out_x * list Z) :=
+  match ev with
+  | XEv e => do x <- tcp_step cx s e; let '(s', o, tags) := x in Ok (s', XOut o, tags)
+  | XConnectAf v6 ra rp local =>
+      match tcp_connect_af cx s v6 ra rp local with
+      | Ok s' => Ok (s', XOut OUnit, []) | Err e => Ok (s, XOut (OErr e), []) | Panic => Panic end
+  | XSendWith data =>
+      match tcp_send_with s data with
+      | Ok (s', n, sl) => Ok (s', XSizeSlice n sl, []) | Err e => Ok (s, XOut (OErr e), []) | Panic => Panic end
+  | XRecvWith k =>
+      match tcp_recv_with s k with
+      | Ok (s', l, sl) => Ok (s', XBytesSlice l sl, []) | Err e => Ok (s, XOut (OErr e), []) | Panic => Panic end
   end.
